@@ -37,7 +37,7 @@ def main():
         sys.exit(0)
     only = a.only.split(",") if a.only else None
     rep = mod.run(a.tier, seed, only)
-    sys.exit(rep.finish(write_evidence=(only is None)))
+    sys.exit(rep.finish(write_evidence=(only is None and not os.environ.get('VERIF_SCRATCH'))))
 
 
 if __name__ == "__main__":
